@@ -7,7 +7,7 @@ from vlib import gen, harness, opcheck, tie
 from vlib.runner import Refused
 
 ID = "C04"
-BUDGET = {"quick": 1600, "thorough": 30000}
+BUDGET = {"quick": 1600, "thorough": 80000}
 RULE = ("Generated: a skeleton (vtree, product type per region, sums above each product, input family per "
         "variable) instantiated 2-3 times with independent unit counts (1..3), repetitions of each partition "
         "(sum arity 1..2, dense or mixing), input parameterisations (categorical probs/logits, embedding, "
